@@ -223,4 +223,13 @@ def c18_5(c: Ctx) -> None:
     check_lookup_not_memoised(c, u, lookups)
 
 
+@ob('C18.6', 'WMW/MPT', 'expect()\'s registration and clean-up meet in one place: on() appends its handler on every path, and nothing but on() / expect() / stop(clear=True) touches the '
+    'registry (same obligation as C01.7) — a policy in on() that skips or replaces a handler by *name*, or an API that detaches and re-attaches handler lists, makes a pending '
+    'expect() miss its event or leaves its temporary handler subscribed')
+def c18_6(c: Ctx) -> None:
+    from .c01 import c01_7
+
+    c01_7(c)
+
+
 OBLIGATIONS = ob.obs
